@@ -33,7 +33,7 @@ CHECKS = {
  "C19": dict(
    technique="TLA+ SourceLayout spec: trivia as character-class sequences, the scanner position calculus and Shift; TLC-enumerated character sequences replayed into the real Position.Advance; every (program, token gap, trivia) variant compiled by the real front end and each diagnostic's recorded position validated by TLC against Shift of its original position",
    category="exploration",
-   text="Corpus of 63 shipped and multi-error programs (accepted and rejected) x every token gap x 9 trivia kinds (quick: one variant per syntactic context, ~2600; thorough: 40000): same verdict, same diagnostics as a multiset, every diagnostic moved exactly with the inserted text (TLC-validated), and for accepted programs a sample is rebuilt and must print the same; all 1093 character-class sequences up to length 6 for the scanner.",
+   text="Corpus of 66 shipped, multi-error, missing-semicolon and unknown-character programs (accepted and rejected) x every token gap x 9 trivia kinds (quick: one variant per syntactic context plus every gap of the ill-formed programs, ~5300; thorough: 40000): same verdict, same diagnostics as a multiset, every diagnostic moved exactly with the inserted text (TLC-validated), and for accepted programs a sample is rebuilt and must print the same; all 1093 character-class sequences up to length 6 for the scanner.",
    note="Messages are compared with digits masked; a diagnostic exactly at the insertion point may stay or move; trivia is inserted immediately before a token."),
  "C03": dict(
    technique="TLA+ TypeRules spec: rule-local typing judgments for 15 rule classes (incl. scoping: a name used outside the block that declares it) enumerated over parameter spaces x 10 syntactic sites; every case rendered and compiled by the real front end, the well-typed members of each (rule, site) family being the controls",
@@ -58,7 +58,7 @@ CHECKS = {
  "C10": dict(
    technique="TLA+ Literals spec over the BigNum library: LitValue / InRange judgment and an enumerator of boundary literals whose rendering is verified by TLC (LitValue(Text(v)) = v); each literal compiled alone by the real front end (ACCEPT <=> InRange) and accepted ones compiled natively in batches and run (printed value = LitValue)",
    category="exploration",
-   text="Exhaustive over the boundary lattice: 12 integer types x (min-2..min+1, -1, 0, 1, max-1..max+2, 2^k-1/2^k/2^k+1 with both signs for every k up to the width) x 4 bases x 3 separator patterns = 6768 literals, in initialiser / argument / return positions; acceptance decided in both directions and the run-time value observed.",
+   text="Exhaustive over the boundary lattice: 12 integer types x (min-2..min+1, -1, 0, 1, max-1..max+2, 2^k-1/2^k/2^k+1 with both signs for every k up to the width; round constants n*2^k for the types of 64 bits and more) x 4 bases x 3 separator patterns, negative values also with the minus sign written apart = 10056 literals, in initialiser / argument / return positions; acceptance decided in both directions and the run-time value observed.",
    note="Decimal printing by the runtime is the observation of the value; '-0' and leading-zero decimals are not generated."),
  "C07": dict(
    technique="TLA+ Borrow spec: loans with forward taint (the property's 'still used later'), shared/mutable/copied/call-returned references, temporary borrows, blocks and twice-judged loop bodies, three-valued verdict and prescribed output; TLC explores the abstract loan-state graph and emits one program per transition; uses of a reference are additionally rendered inside seven once-executed syntactic contexts (if / else / else-if / else after else-if / match arm / default arm / nested blocks); function literals over borrowed places (created at one point, called at the end) with the whole program also rendered inside a branch; RefEscape spec for returned references; programs compiled (and legal ones run) by the real compiler",
@@ -76,9 +76,9 @@ CHECKS = {
    text="All 11840 bodies of the grammar up to depth 2 (if/else-if/else, match with and without default, while/for/while-true with break/continue, early returns): CanFallOff => rejected, in all three declaration forms (quick: one representative per control-flow signature); accepted bodies are run on every parameter vector and must print the value of the return statement the specification's path takes.",
    note="Each condition tests its own parameter so syntactic paths are feasible; rejection of bodies that cannot fall off is allowed (one-directional property) and counted."),
  "C20": dict(
-   technique="TLA+ transcription of the TOML writer and parser over character sequences with RoundTrips/CommentInert; TLC-enumerated tables over 22 value classes and all short raw contents replayed into the real toml package (write, insert trivia, parse, DeepEqual; parse under recover)",
+   technique="TLA+ transcription of the TOML writer and parser over character sequences with RoundTrips/CommentInert; TLC-enumerated tables over 32 value classes and all short raw contents replayed into the real toml package (write, insert trivia, parse, DeepEqual; parse under recover)",
    category="model_checking",
-   text="Exhaustive over the bounded table space (value classes covering strings with #,=,[ ], blanks, digit strings, booleans, ints incl. MaxInt64, fractional/integral/tiny/huge floats; empty sections; all 7 writer sections in the thorough tier) x 6 trivia variants, and over all contents of <= 3 characters from 11 character classes with 3 prefixes for the no-crash clause; the specification's own parser is additionally compared with the real parser on every raw content.",
+   text="Exhaustive over the bounded table space (value classes covering strings with #,=,[ ], blanks, digit strings, ten strings spelled like numbers (inf, NaN, 1e5, 0x1p1, +7 ...), booleans, ints incl. MaxInt64, fractional/integral/tiny/huge floats; empty sections; all 7 writer sections in the thorough tier) x 6 trivia variants, and over all contents of <= 3 characters from 11 character classes with 3 prefixes plus all values of <= 4 characters over 13 number-spelling characters for the no-crash clause; the specification's own parser is additionally compared with the real parser on every raw content.",
    note="Float classes are identified with the text strconv.FormatFloat produces for their representative; reflect.DeepEqual is the observation."),
  "C16": dict(
    technique="TLA+ BigNum library (self-tested) + BigIntApi specification of every exported 128/256-bit operation; real calls of bigint.c on TLC-enumerated limb-boundary operand patterns and seeded random operands are logged and validated by TLC (division checked by q*b+r=a)",
@@ -88,7 +88,7 @@ CHECKS = {
  "C17": dict(
    technique="TLA+ abstract map/list spec (RtColl) and the implementation-shaped RtMapImpl (chained hash table: resize at 3/4, relinking, literal pre-sizing; TLC checks that it refines the abstract map for every hash function over a small universe); TLC-enumerated transition histories and simulated long histories replayed into the real C runtime under ASan/UBSan; the logged replies and full projected state after every call validated by TLC (RtCollTrace)",
    category="model_checking",
-   text="Every transition of the small abstract state graph and simulated 200-call histories crossing the rehash/capacity thresholds are replayed for all key flavours and element sizes; TLC checks every reply, size, per-key lookup and iteration (each entry exactly once) against the abstract state after every single call, and the logged table itself (every entry in the bucket its hash selects, no key twice); sanitizer reports decide the memory-safety clause.",
+   text="Every transition of the small abstract state graph and simulated 200-call histories crossing the rehash/capacity thresholds (built by single sets and by map literals of 11..40 entries) are replayed for all key flavours and element sizes; TLC checks every reply, size, per-key lookup and iteration (each entry exactly once) against the abstract state after every single call, and the logged table itself (every entry in the bucket its hash selects, no key twice); sanitizer reports decide the memory-safety clause.",
    note="Memory safety is observed by AddressSanitizer/UBSan/LeakSanitizer, not specified; the driver's key concretisation is trusted."),
  "C14": dict(
    technique="TLA+ ModuleLoader spec (global literal counter, stable-sorted diagnostic bag, cycle DFS path, Kahn order, modules without a source file blamed on the claiming import) simulated by TLC over projects x 3 schedules; every schedule forced through the hooked compiler's gates, every run trace-validated by TLC; runs the spec maps to the same Output must be byte-identical",
@@ -103,7 +103,7 @@ CHECKS = {
  "C11": dict(
    technique="TLA+ judgment Lossless(S,T) (closed forms model-checked against brute force at small widths) + TLC-enumerated cases replayed into the real front end",
    category="model_checking",
-   text="Exhaustive over the finite space the property quantifies over: all 289 ordered pairs of the 17 numeric types in 10 (quick) / 23 (thorough) assignment-like positions (incl. a return after a function literal with another return type, closure arguments, append, optional targets); each case is compiled by the real front end together with its explicit-cast control.",
+   text="Exhaustive over the finite space the property quantifies over: all 289 ordered pairs of the 17 numeric types in 12 (quick) / 25 (thorough) assignment-like positions (incl. a return after a function literal with another return type, closure arguments, append, optional targets, the fallbacks of ?? and catch), in five positions also with the converted expression being x / y, x * y or f(x) instead of a variable; each case is compiled by the real front end together with its explicit-cast control.",
    note="Trusts the IEEE-754 reading of f32..f256 (24/53/113/237-bit significands), the renderer of the positions and the front-end verdict observed through compiler.Compile (violations are re-confirmed through the CLI binary)."),
 }
 
